@@ -309,6 +309,9 @@ type Contract struct {
 	Cases     []*Contract
 	TrustWhy  string
 	AllowPanic bool
+	Uses       []string // global invariants assumed at entry and proved at exit
+	Merge      bool     // use state merging from the start (many symmetric paths)
+	Maintains  []string // global invariants assumed at entry AND re-proved at exit (functions that write the global)
 }
 
 type SpecMacro struct {
@@ -318,16 +321,24 @@ type SpecMacro struct {
 	Text   string
 }
 
+type ImmutableDecl struct {
+	Global  string
+	pkgPath string
+}
+
 type ContractFile struct {
-	Contracts []*Contract
-	Macros    map[string]*SpecMacro
-	Protects  map[string][]string
-	Immutable []string
+	Contracts  []*Contract
+	Macros     map[string]*SpecMacro
+	Protects   map[string][]string
+	Immutables []ImmutableDecl
+	Mutables   []MutableDecl
+	GInvs      map[string]*GInv
+	curPkg     string
 }
 
 var clauseKeywords = map[string]bool{"func": true, "requires": true, "ensures": true, "modifies": true, "loop": true,
 	"inline": true, "trusted": true, "nullable": true, "props": true, "spec": true, "let": true, "ghost": true,
-	"immutable": true, "protects": true, "allowpanic": true}
+	"immutable": true, "protects": true, "allowpanic": true, "mutable": true, "ginv": true, "uses": true, "merge": true, "maintains": true}
 
 func ParseContractFile(path string, into *ContractFile) error {
 	data, err := os.ReadFile(path)
@@ -414,7 +425,22 @@ func ParseContractFile(path string, into *ContractFile) error {
 			}
 			into.Macros[name] = &SpecMacro{Name: name, Params: params, Body: n, Text: body}
 		case "immutable":
-			into.Immutable = append(into.Immutable, strings.Fields(strings.ReplaceAll(rest, ",", " "))...)
+			for _, g := range strings.Fields(strings.ReplaceAll(rest, ",", " ")) {
+				into.Immutables = append(into.Immutables, ImmutableDecl{Global: g, pkgPath: into.curPkg})
+			}
+		case "mutable":
+			d, err := parseMutableDecl(rest)
+			if err != nil {
+				return fmt.Errorf("%s: %v", path, err)
+			}
+			d.pkgPath = into.curPkg
+			into.Mutables = append(into.Mutables, d)
+		case "ginv":
+			cl, err := parse(rest)
+			if err != nil {
+				return err
+			}
+			into.GInvs[cl.Label] = &GInv{Name: cl.Label, Clause: cl, pkgPath: into.curPkg}
 		case "protects":
 			parts := strings.SplitN(rest, ":", 2)
 			if len(parts) == 2 {
@@ -458,10 +484,14 @@ func ParseContractFile(path string, into *ContractFile) error {
 			case "modifies":
 				cur.HasMod = true
 				if rest != "nothing" {
-					for _, m := range strings.Split(rest, ",") {
-						cur.Modifies = append(cur.Modifies, strings.TrimSpace(m))
-					}
+					cur.Modifies = append(cur.Modifies, splitTop(rest)...)
 				}
+			case "uses":
+				cur.Uses = append(cur.Uses, strings.Fields(strings.ReplaceAll(rest, ",", " "))...)
+			case "maintains":
+				cur.Maintains = append(cur.Maintains, strings.Fields(strings.ReplaceAll(rest, ",", " "))...)
+			case "merge":
+				cur.Merge = true
 			case "inline":
 				cur.Inline = true
 			case "allowpanic":
@@ -507,9 +537,7 @@ func ParseContractFile(path string, into *ContractFile) error {
 					}
 					ls.Decreases = &cl
 				case "modifies":
-					for _, m := range strings.Split(r2, ",") {
-						ls.Modifies = append(ls.Modifies, strings.TrimSpace(m))
-					}
+					ls.Modifies = append(ls.Modifies, splitTop(r2)...)
 				case "unroll":
 					ls.Unroll = true
 				default:
@@ -537,4 +565,29 @@ func labelRe(s string) string {
 		return ""
 	}
 	return s[:i]
+}
+
+// splitTop splits on commas that are not inside parentheses / brackets / strings.
+func splitTop(s string) []string {
+	var out []string
+	depth, start, inStr := 0, 0, false
+	for i := 0; i < len(s); i++ {
+		c := s[i]
+		switch {
+		case c == '"':
+			inStr = !inStr
+		case inStr:
+		case c == '(' || c == '[':
+			depth++
+		case c == ')' || c == ']':
+			depth--
+		case c == ',' && depth == 0:
+			out = append(out, strings.TrimSpace(s[start:i]))
+			start = i + 1
+		}
+	}
+	if t := strings.TrimSpace(s[start:]); t != "" {
+		out = append(out, t)
+	}
+	return out
 }
